@@ -36,6 +36,15 @@ SemOK(e) ==
   CASE e.kind = "word" -> \A k \in 1..Len(e.outs) : e.outs[k].panic = "" /\ WordOK(e.op, e.abits, e.bbits, e.outs[k].out)
     [] e.kind = "prep" -> \A k \in 1..Len(e.outs) : /\ e.outs[k].panic = ""
                                                    /\ \A b \in 0..31 : (e.outs[k].out[b + 1] = 1) <=> (b >= e.start /\ b < e.start + e.count /\ e.abits[b + 1] = 1)
+    [] e.kind = "surgery" ->
+         LET Ab(k) == e.abits[k + 1]
+             Bb(k) == e.bbits[k + 1]
+             Want(k) == CASE e.op = "sext" -> (IF k < 8 * (e.i0 + 1) THEN Ab(k) ELSE Ab(8 * (e.i0 + 1) - 1))
+                          [] e.op = "zero_byte" -> (IF k \div 8 = e.i0 THEN 0 ELSE Ab(k))
+                          [] e.op = "splice_u8" -> (IF k \div 8 = e.i0 THEN Bb(8 * e.i1 + (k % 8)) ELSE Ab(k))
+                          [] e.op = "splice_u16" -> (IF k \div 16 = e.i0 THEN Bb(16 * e.i1 + (k % 16)) ELSE Ab(k))
+                          [] OTHER -> (IF k = 0 THEN Ab(e.i0) ELSE 0)           \* get_bit: the selected bit as the word 0 / 1
+         IN \A o \in 1..Len(e.outs) : e.outs[o].panic = "" /\ \A k \in 0..31 : e.outs[o].out[k + 1] = Want(k)
     [] e.kind = "shared" -> \A k \in 1..Len(e.outs) : e.outs[k].panic = "" /\ WordOK(e.outs[k].op, e.abits, e.bbits, e.outs[k].out)
     [] OTHER ->  \* chain
          LET RECURSIVE Go(_, _)
@@ -45,10 +54,10 @@ SemOK(e) ==
                                 /\ Go(k + 1, e.outs[k].out)
          IN Len(e.outs) = Len(e.ops) /\ Go(1, e.abits)
 ThreadsOK(e) ==
-  CASE e.kind = "chain" -> TRUE
+  CASE e.kind \in {"chain", "surgery"} -> TRUE
     [] e.kind = "shared" -> \A k \in 1..Len(e.outs) : \A j \in 1..Len(e.outs[k].conc) : e.outs[k].conc[j] = e.outs[k].digest     \* shared module / key / operands
     [] OTHER -> \A k \in 1..Len(e.outs) : e.outs[k].digest = e.outs[1].digest
-PartOK(e) == e.kind \in {"chain", "shared"} \/ \A k \in 1..Len(e.outs) : e.outs[k].panic # "" \/ PartitionOK([e.outs[k] EXCEPT !.nitems = NItems(e, e.outs[k])])
+PartOK(e) == e.kind \in {"chain", "shared", "surgery"} \/ \A k \in 1..Len(e.outs) : e.outs[k].panic # "" \/ PartitionOK([e.outs[k] EXCEPT !.nitems = NItems(e, e.outs[k])])
 Verdict(e, k) ==
      (IF SemOK(e) THEN <<>> ELSE << <<k, "sem">> >>)
   \o (IF ThreadsOK(e) THEN <<>> ELSE << <<k, "threads">> >>)
